@@ -629,8 +629,6 @@ pub struct AtrReport {
     pub triples_rebroadcast: usize,
     pub triples_dust: usize,
     pub failures: Vec<String>,
-    /// failures that belong to known classes: (finding id, text)
-    pub known: Vec<(String, String)>,
 }
 
 struct LeavingItem<'a> {
